@@ -257,6 +257,15 @@ func (pConn *PFCPConn) handlePFDMgmtRequest(msg message.Message) (message.Messag
 	}
 
 	currentAppPFDs := pConn.appPFDs
+	accepted := false
+
+	// Unless the request is accepted the table stays what it was; this also covers a
+	// panic of the decoding library on a malformed IE, which the dispatcher recovers from.
+	defer func() {
+		if !accepted {
+			pConn.appPFDs = currentAppPFDs
+		}
+	}()
 
 	// On every PFD management request reset existing contents
 	// TODO: Analyse impact on PDRs referencing these IDs
@@ -306,6 +315,8 @@ func (pConn *PFCPConn) handlePFDMgmtRequest(msg message.Message) (message.Messag
 		pConn.appPFDs[id] = applicationPFD
 		logger.PfcpLog.Debugf("flow descriptions for AppID %v: %v", id, applicationPFD.flowDescs)
 	}
+
+	accepted = true
 
 	// Build response message
 	pfdres := message.NewPFDManagementResponse(pfdmreq.SequenceNumber,
